@@ -43,7 +43,7 @@ use crate::proto::{Ctx, attrs};
 pub fn meta() -> Meta {
     Meta {
         level: "fault_enumeration",
-        rule: "round trip: every (kind in {bdd,bcdd,zbdd,mtbdd<i64>} x all 6 orders of 3 variables (tdd: 2 variables, both orders) x variable-name configuration (10, incl. names that equal a generated name only after sanitising) x root set (empty, every single function, all pairs of a 24-function set, 3 triples with a repeated and a constant root) x {ascii,binary} x {2.0,3.0} x {strict,lax} x root names {none, valid, to-be-sanitised}) is exported and re-imported four ways (same manager; fresh manager with the order from the header; renaming onto the first variables of a manager with one more variable; renaming onto the last variables of a manager with min(2n, 6) variables, i.e. onto levels the exporting manager does not have), and additionally through readers that deliver the file 1, 2, 3 and 5 bytes at a time; thorough adds n=4 (4 orders, functions with unused variables). faults: for each of the valid files every proper prefix and every position x byte of the alphabet {0x00,\\n,space,0,9,-,.,A,B,0x7f,0xff} (thorough: all 256 bytes; binary node section always all 256 values on the first 64 node bytes) plus a few hand-made oversized-count headers. For the audited subset of the round trips the export is repeated into a sink that accepts k bytes and then fails, for every k below the file length (short write, then errors): the export must return an error and what reached the sink must be a prefix of the file. A round-trip case is non-trivial when at least one root has an inner node; a mutant is non-trivial when it differs from the original file (identical substitutions are skipped and not counted).",
+        rule: "round trip: every (kind in {bdd,bcdd,zbdd,mtbdd<i64>} x all 6 orders of 3 variables (tdd: 2 variables, both orders) x variable-name configuration (10, incl. names that equal a generated name only after sanitising) x root set (empty, every single function, all pairs of a 24-function set, 3 triples with a repeated and a constant root) x {ascii,binary} x {2.0,3.0} x {strict,lax} x root names {none, valid, to-be-sanitised}) is exported and re-imported four ways (same manager; fresh manager with the order from the header; renaming onto the first variables of a manager with one more variable; renaming onto the last variables of a manager with min(2n, 6) variables, i.e. onto levels the exporting manager does not have), and additionally through readers that deliver the file 1, 2, 3 and 5 bytes at a time; thorough adds n=4 (4 orders, functions with unused variables). faults: for each of the valid files every proper prefix and every position x byte of the alphabet {0x00,\\n,space,0,9,-,.,A,B,0x7f,0xff} (thorough: all 256 bytes; binary node section always all 256 values on the first 64 node bytes) plus a few hand-made oversized-count headers. For the audited subset of the round trips the export is repeated into a sink that accepts k bytes and then fails, for every k below the file length (short write, then errors): the export must return an error and what reached the sink must be a prefix of the file. x:header: the header entries of exporter-written files exchanged pairwise, repeated at every position, repeated with each of their numbers +-1 (for .nnodes-1 also with one node line less): no panic; exchanged / repeated entries that are accepted must denote the original functions. A round-trip case is non-trivial when at least one root has an inner node; a mutant is non-trivial when it differs from the original file (identical substitutions are skipped and not counted).",
         assumptions: vec![
             "original diagrams are built through DiagramRules::reduce + then_insert and read back by the harness's own interpreter".into(),
             "the fresh-manager order is reconstructed from DumpHeader::{num_vars, support_vars, support_var_to_level} only (unused variables fill the remaining levels in ascending order)".into(),
